@@ -108,6 +108,12 @@ func (p *Prosumer) dispatch(topics map[string][]Message) {
 }
 
 func (p *Prosumer) call(callback Callback, message Message) {
+	// a callback that panics loses that message, not the subscribing process
+	defer func() {
+		if e := recover(); e != nil {
+			p.onError(core.NewPanicError(e))
+		}
+	}()
 	switch callback := callback.(type) {
 	case func(Message):
 		callback(message)
